@@ -1,6 +1,20 @@
 package __PKG__
 
-import "context"
+import (
+	"context"
+	"time"
+)
+
+// slowDoneCtx: when the replayed run let a new goroutine run first, Done() takes a moment, which gives the library's
+// goroutines the same head start natively
+type slowDoneCtx struct{ context.Context }
+
+func (c *slowDoneCtx) Done() <-chan struct{} {
+	if verifExtTrue("new goroutine runs first") {
+		time.Sleep(3 * time.Millisecond)
+	}
+	return c.Context.Done()
+}
 
 func verifCancelledCtx(withCause bool) context.Context {
 	ctx, cancel := context.WithCancelCause(context.Background())
@@ -9,5 +23,5 @@ func verifCancelledCtx(withCause bool) context.Context {
 	} else {
 		cancel(nil)
 	}
-	return ctx
+	return &slowDoneCtx{ctx}
 }
